@@ -134,6 +134,12 @@ theorem trle_run_bounded (budget acc : Nat) (bs rest : Bytes) (len : Nat)
     rest.length < bs.length ∧ bs.length - rest.length ≤ budget + 1 :=
   trleRunLen_consumes budget acc bs rest len h
 
+/-- the 4-byte loads with which trle.c reads 3-byte CPIXELs stay inside `raw_buffer` (raw tile
+`i < w·h ≤ 256`, palette `i < 127`, solid / run `i = 0`); what they pick up beyond the pixel goes to
+the unused byte of the framebuffer cell, which every C07 comparison masks -/
+theorem trle_cpixel_word_read_in_bounds {i cur : Nat} (hi : i < 256) : 3 * i + 4 ≤ trleRawBuf (.full 3) cur :=
+  trle_word_read_in_bounds hi
+
 /-! ## ultrazip_walk_in_bounds -/
 
 theorem ultrazip_walk_in_bounds (bpp len : Nat) (hdr : Nat → Nat × Nat × Bool) (n : Nat)
